@@ -176,7 +176,13 @@ def worker(args):
     classes = set()
     samples = []
     ora = oracle_pf.parse_many(lits)
-    rc, direct, err, last = inproc.run_mode("fmtparse", [inproc.hexs(s) for s in lits])
+    have_direct = inproc.has("vc_int_fmt")
+    if have_direct:
+        rc, direct, err, last = inproc.run_mode("fmtparse", [inproc.hexs(s) for s in lits])
+    else:
+        # the parser's internal AST no longer matches the harness: expansions remain the observation point
+        rc, direct, err, last = 0, [{"kind": "nodirect"}] * len(lits), "", None
+        stats["direct_parser_unavailable"] = len(lits)
     if len(direct) != len(lits):
         return {"error": "fmtparse answered %d of %d (rc=%s, last=%r, stderr=%s)" % (len(direct), len(lits), rc, last, err[-500:])}
     cases = []
@@ -194,7 +200,9 @@ def worker(args):
             stats["std_accepts"] += 1
             if o["n"] == 0:
                 # text only: no placeholders may be recognised
-                if d["kind"] != "ok" or d["canon"] != "":
+                if d["kind"] == "nodirect":
+                    pass
+                elif d["kind"] != "ok" or d["canon"] != "":
                     viol.append(("direct:text:" + lit, "text-only literal %r: derive_more parser says %s" % (lit, d), {"literal": lit, "std": o, "derive_more": d}))
                 else:
                     stats["direct_agree"] += 1
@@ -209,7 +217,9 @@ def worker(args):
                 shape = re.sub(r"\d+", "N", re.sub(r"n[^|;:)]+", "nI", o["canon"]))
                 classes.add(("acc", shape))
                 # (a) direct observation
-                if d["kind"] != "ok":
+                if d["kind"] == "nodirect":
+                    pass
+                elif d["kind"] != "ok":
                     viol.append(("direct:unrecognised:" + shape, "std accepts %r (%s) but derive_more's parser does not recognise it" % (lit, o["canon"]),
                                  {"literal": lit, "std": o, "derive_more": d}))
                 elif d["canon"] != o["canon"]:
@@ -254,7 +264,7 @@ def worker(args):
             stats["std_rejects"] += 1
             classes.add(("rej", re.sub(r"`[^`]*`", "`_`", o.get("why", ""))[:60]))
             # a literal std rejects must reach the compiler: expansion must forward it verbatim
-            if d["kind"] == "ok" or h % 16 == 0:
+            if d["kind"] == "ok" or h % 16 == 0 or (d["kind"] == "nodirect" and h % 4 == 0):
                 for form, item in (("R1", "#[%s(%s, _0)] struct S<T0>(T0);" % (attr, tok)),
                                    ("R0", "#[%s(%s)] struct S<T0> { x: T0, _0: u8 }" % (attr, tok))):
                     cid = "%d.%s" % (i, form)
